@@ -395,6 +395,9 @@ func (b *Broker) setSession(client *Client, connect *packets.ConnectPacket) {
 		client.session = prevSess
 	} else {
 		if prevSess != nil {
+			// the discarded session's subscriptions go with it
+			topics, _, _ := prevSess.allSubscribes()
+			b.topicMgr.unsubscribe(topics, connect.ClientIdentifier)
 			prevSess.close()
 		}
 		client.session = b.sessMgr.newSessionFromConn(connect)
